@@ -281,6 +281,14 @@ impl MaybeDynSized for InformationRequestHeaderTag {
 //@end
 }
 
+impl InformationRequestHeaderTag {
+//@extractall multiboot2-header/src/information_request.rs :: impl InformationRequestHeaderTag
+//@  fn new: skip
+//@  fn typ: skip
+//@  fn flags: skip
+//@end
+}
+
 impl HeaderTagHeader {
 //@extract multiboot2-header/src/tags.rs :: impl HeaderTagHeader :: fn new
 //@  ret r
